@@ -73,4 +73,16 @@ PROPS = {
             "float results are compared bit-exactly: the reference performs the same IEEE operations in the order given by the tree",
         ],
     },
+    "C14": {
+        "quick": [
+            {"test": "TestC14Variants", "checks": 12000, "shards": 4},
+        ],
+        "thorough": [
+            {"test": "TestC14Variants", "checks": 640000, "shards": 16},
+        ],
+        "assumptions": [
+            "faults are injected through a context function tick() returning (string, error); programs that fail by themselves (e.g. division by a zero-valued variable) are kept and must fail identically through all entry points",
+            "fault positions are enumerated up to 40 per program",
+        ],
+    },
 }
